@@ -18,7 +18,9 @@ class NotificationCenter():
     def notify(cls, obj, msg, *args, **kwargs):
         if obj in cls._registrations and msg in cls._registrations[obj]:
             for listener, action in cls._registrations[obj][msg].copy().items():
-                fn.value(action, obj, msg, listener, *args, **kwargs)
+                # May be unregistered by a previous action.
+                if cls.registration_exists(obj, msg, listener):
+                    fn.value(action, obj, msg, listener, *args, **kwargs)
 
     @classmethod
     def register(cls, obj, msg, listener, action):
